@@ -42,6 +42,15 @@ RULES = {
     "if present, must equal the number of body bytes emitted",
     "filefaults": "enumerated fault injection for FileResponse: the file is removed / truncated to nothing / truncated to half / extended AFTER the response object was built and "
     "before it is called x Range shape (none, single, multi) x GET/HEAD x zero-copy extension; the emitted events must be a legal prefix (an exception may escape)",
+    "reuse": "enumerated: ONE response object (it is an application) serves two requests one after the other.  First request: fault-free, or client disconnect after the k-th send "
+    "(every k, send() swallowing / raising afterwards), or the server closing the WSGI iterable after k items (every k), or the producer raising at a scripted step.  Second request to the "
+    "SAME object: client stays connected, producer does not raise -> its events must be a complete legal sequence (ASGI: start, >= 1 body events, only the last with more_body false, "
+    "nothing afterwards; WSGI: start_response exactly once before the first body bytes, only bytes), judged by the same gateway models; bodies are NOT compared (a one-shot generator is "
+    "exhausted by then).  Recipes: all 8 response classes x second request same / other method; stream and event stream over one-shot generators, lists, iterator objects and objects "
+    "whose __iter__/__aiter__ makes a fresh generator (scripted failure in the first iteration only) x item lists x raise points; a producer suspended at the disconnect; an idle event "
+    "stream; files x Range / HEAD / zero-copy for first and second request; responses behind baize's middleware.  non-trivial = at least one second request after a first one that "
+    "ended by disconnect / early close",
+    "reuse_mix": "Hypothesis: the recipes and requests of [responses] through the two-request oracle of [reuse], the second request sometimes with another method / Range",
 }
 ASSUMPTIONS = [
     "constructor arguments that cannot be rendered at all (NaN in JSON, text the chosen charset cannot encode, header text above U+00FF) are caller errors and not generated",
@@ -138,31 +147,38 @@ class AsyncIterator(_Steps):
         return x
 
 
-class SyncReiterable:
+class _Reiterable:
+    """raise_runs=n: the scripted failure happens in the first n iterations only (recipe key "raise_runs"; a source that is
+    iterated once per request and fails for one request, not for the next); None: in every iteration."""
+
+    def __init__(self, items, raise_at, raise_runs=None):
+        self.items, self.raise_at, self.raise_runs = list(items), raise_at, raise_runs
+        self.runs = 0
+
+    def _raise_at(self):
+        self.runs += 1
+        return self.raise_at if self.raise_runs is None or self.runs <= self.raise_runs else None
+
+
+class SyncReiterable(_Reiterable):
     """An object whose __iter__ is a generator function (the object itself has no close())."""
 
-    def __init__(self, items, raise_at):
-        self.items, self.raise_at = list(items), raise_at
-
     def __iter__(self):
-        return recipes._sync_producer(self.items, self.raise_at, None)
+        return recipes._sync_producer(self.items, self._raise_at(), None)
 
 
-class AsyncReiterable:
+class AsyncReiterable(_Reiterable):
     """An object with `async def __aiter__`-style iteration (the object itself has no aclose())."""
 
-    def __init__(self, items, raise_at):
-        self.items, self.raise_at = list(items), raise_at
-
     def __aiter__(self):
-        return recipes._async_producer(self.items, self.raise_at, None)
+        return recipes._async_producer(self.items, self._raise_at(), None)
 
 
-def make_iterable(kind, side, items, raise_at):
+def make_iterable(kind, side, items, raise_at, raise_runs=None):
     if kind == "list" and side == "wsgi" and raise_at is None:
         return [_item(it) for it in items]
     if kind == "reiterable":
-        return (SyncReiterable if side == "wsgi" else AsyncReiterable)(items, raise_at)
+        return (SyncReiterable if side == "wsgi" else AsyncReiterable)(items, raise_at, raise_runs)
     if kind in ("list", "iterator"):  # there is no asynchronous list: the ASGI side of "list" is an iterator object
         return (SyncIterator if side == "wsgi" else AsyncIterator)(items, raise_at)
     raise core.HarnessError(f"iterable kind {kind!r}")
@@ -262,7 +278,7 @@ def build(recipe, side):
         resp = recipes.build_response(recipe, side)  # response objects are applications themselves
         if recipe.get("iterable"):
             items = recipe["chunks"] if recipe["kind"] == "stream" else recipe["events"]
-            resp.iterable = make_iterable(recipe["iterable"], side, items, recipe.get("raise_at"))
+            resp.iterable = make_iterable(recipe["iterable"], side, items, recipe.get("raise_at"), recipe.get("raise_runs"))
         _apply_cookie_ops(resp, recipe.get("cookie_ops", ()))
         return _Built(resp)
     if recipe.get("kind") == "raw":
@@ -599,8 +615,224 @@ def oracle_sizes(case) -> Result:
     return r
 
 
+# ------------------------------------------------------------------------------------------
+# one response object, two requests.  A response object IS an application (callable with (environ, start_response) /
+# (scope, receive, send)); nothing in the statement limits it to one call: "for every response type, constructor
+# arguments and request".  The first request runs with a fault (client gone after k events / iterable closed after k
+# items / producer raising) or without; the SECOND request to the same object has a connected client, and whatever the
+# first one left behind on the object, what the second one gets must be a complete legal sequence.  Bodies are not
+# compared: a one-shot producer is exhausted by then and an empty body is as legal as any other.
+
+
+def _second_request(case):
+    return request_for({"request": case.get("request2", case.get("request", {}))})
+
+
+def asgi_pair(case, recipe, **first_kw):
+    app = build(recipe, "asgi").app
+    first = gw.call_asgi(app, request_for(case), **first_kw)
+    return first, gw.call_asgi(app, _second_request(case))
+
+
+def wsgi_pair(case, recipe, close_after=None):
+    """(first run, second run) on one object | 'hang' | None (event streams are skipped once one of them hung)."""
+    app = build(recipe, "wsgi").app
+
+    def both():
+        first = gw.call_wsgi(app, request_for(case), close_after=close_after)
+        return first, gw.call_wsgi(app, _second_request(case))
+
+    if recipe["kind"] != "sse":
+        return both()
+    if _POISONED["wsgi-stream"]:
+        return None
+    kind, val = with_watchdog(both)
+    if kind == "hang":
+        _POISONED["wsgi-stream"] = True
+        return "hang"
+    if kind == "exc":
+        raise val
+    return val
+
+
+def _judge_second(r, side, run, ctx):
+    """The second call had no fault of its own: complete and legal.  (Should the producer raise in this call as well - an
+    iterator object that reaches its scripted failure only now - the prefix clause is all there is.)"""
+    for code, text in run.errors:
+        r.fail(f"C05:{side}:reuse:{code}", f"{ctx}: {text}")
+    if run.exc is not None:
+        if isinstance(run.exc, ProducerError):
+            r.label("second-call=producer-raised")
+        else:
+            r.fail(f"C05:{side}:reuse:raised:{type(run.exc).__name__}", f"{ctx}: {run.exc!r}")
+        return
+    if side == "wsgi":
+        if run.start_calls != 1:
+            r.fail("C05:wsgi:reuse:start-count", f"{ctx}: start_response called {run.start_calls} times")
+        r.label(f"second-body={'empty' if not run.body else 'non-empty'}")
+        return
+    shape = [(e.get("type"), e.get("more_body")) for e in run.events]
+    if not run.complete:
+        r.fail("C05:asgi:reuse:incomplete", f"{ctx}: events {shape}")
+    elif not [e for e in run.events if e.get("type") != "http.response.start"]:
+        r.fail("C05:asgi:reuse:no-body-event", f"{ctx}: events {shape}")
+    r.label(f"second-body={'empty' if not run.body else 'non-empty'}")
+
+
+def oracle_reuse(case) -> Result:
+    r = Result()
+    recipe = case["response"]
+    kind = recipe["kind"]
+    ctx = f"ONE response object, two requests: recipe {recipe!r} request {case.get('request')!r} second request {case.get('request2', 'the same')!r}"
+    base = dict(recipe)
+    base.pop("raise_at", None)
+    for side in ("wsgi", "asgi"):
+        try:
+            build({k: v for k, v in base.items()}, side)
+        except (ValueError, CookieRejected):
+            # refused at construction / at the cookie call: there is no object to call (judged by the other sub-checks)
+            r.label("rejected-at-construction")
+            return r
+    runs = 0
+    after_disconnect = 0
+    # ---------------- WSGI ----------------
+    pair = wsgi_pair(case, base)
+    runs += 2
+    if pair == "hang":
+        r.fail("C05:wsgi:hang", f"{ctx}: two fault-free WSGI runs did not return within 20 s")
+        pair = None
+    if pair is not None:
+        first, second = pair
+        _judge_second(r, "wsgi", second, f"{ctx}: after a fault-free first request")
+        n_items = first.items
+        for k in fault_points(n_items):
+            pair = wsgi_pair(case, base, close_after=k)
+            runs += 2
+            if pair == "hang":
+                r.fail("C05:wsgi:hang", f"{ctx}: first request closed after {k} items: no return within 20 s")
+                break
+            if pair is None:
+                break
+            if k < n_items:
+                after_disconnect += 1
+            _judge_second(r, "wsgi", pair[1], f"{ctx}: after a first request that the server closed after {k} of {n_items} items")
+        if "raise_at" in recipe:
+            pair = wsgi_pair(case, recipe)
+            runs += 2
+            if pair == "hang":
+                r.fail("C05:wsgi:hang", f"{ctx}: producer raising at {recipe['raise_at']} in the first request: no return within 20 s")
+            elif pair is not None:
+                _judge_second(r, "wsgi", pair[1], f"{ctx}: after a first request whose producer raised at step {recipe['raise_at']} ({pair[0].exc!r})")
+    # ---------------- ASGI ----------------
+    first, second = asgi_pair(case, base)
+    runs += 2
+    _judge_second(r, "asgi", second, f"{ctx}: after a fault-free first request")
+    n_sends = first.sends
+    for k in fault_points(n_sends):
+        for raising in (False, True):
+            first, second = asgi_pair(case, base, disconnect_after_sends=k, send_raises_after_disconnect=raising)
+            runs += 2
+            if k < n_sends:
+                after_disconnect += 1
+            _judge_second(
+                r, "asgi", second,
+                f"{ctx}: after a first request whose client disconnected after {k} of {n_sends} sends (send {'raised' if raising else 'swallowed'} afterwards; "
+                f"first request emitted {[(e.get('type'), e.get('more_body')) for e in first.events]}, raised {first.exc!r})",
+            )
+    if "raise_at" in recipe:
+        first, second = asgi_pair(case, recipe)
+        runs += 2
+        _judge_second(r, "asgi", second, f"{ctx}: after a first request whose producer raised at step {recipe['raise_at']} ({first.exc!r})")
+    if recipe.get("iterable"):
+        gw.run_sync(_settle())
+    left = gw.leftover_tasks()
+    if left:
+        r.fail("C05:asgi:task-left", f"{ctx}: {left[:2]!r}")
+    r.weight = runs
+    r.nontrivial = after_disconnect > 0
+    r.label(f"kind={kind}", f"producer={recipe.get('iterable') or ('generator' if kind in ('stream', 'sse') else 'none')}")
+    if after_disconnect:
+        r.label("second-request-after-disconnect")
+    if "raise_at" in recipe:
+        r.label("second-request-after-producer-failure")
+    if "request2" in case:
+        r.label("second-request-differs")
+    if recipe.get("wrap"):
+        r.label("behind-middleware")
+    return r
+
+
+def reuse_cases(quick):
+    chunk_lists = ([], [b"a"], [b"a", b"", b"bc"])
+    event_lists = ([], [{"data": "x"}], [{"data": "a\nb", "id": "1"}, {"event": "e"}, {"data": "é"}])
+    get, head = {"method": "GET"}, {"method": "HEAD"}
+    # every response class, the second request like the first and with the other method
+    for recipe in _KIND_RECIPES + ({"kind": "plain", "content": ""}, {"kind": "empty", "status": 204}, {"kind": "redirect", "url": "/n", "status": 301}):
+        if recipe["kind"] == "file":
+            continue
+        for rq, rq2 in ((get, None), (get, head), (head, get)):
+            case = {"response": dict(recipe), "request": dict(rq)}
+            if rq2 is not None:
+                case["request2"] = dict(rq2)
+            yield case
+    # streaming responses over one-shot generators (exhausted or closed by the first request) ...
+    for kind, key, lists in (("stream", "chunks", chunk_lists), ("sse", "events", event_lists)):
+        for items in lists:
+            for raise_at in [None] + list(range(len(items) + 1)):
+                recipe = {"kind": kind, key: [_item(x) for x in items]}
+                if raise_at is not None:
+                    recipe["raise_at"] = raise_at
+                yield {"response": recipe, "request": dict(get)}
+    # ... and over sources that can be iterated again (a list, an object whose __iter__/__aiter__ makes a fresh generator;
+    # its scripted failure hits the first request only) or that go on where the first request stopped (an iterator object)
+    for it in ("reiterable", "list", "iterator"):
+        for kind, key, lists in (("stream", "chunks", chunk_lists), ("sse", "events", event_lists)):
+            for items in lists:
+                for raise_at in [None] + list(range(len(items) + 1)):
+                    if quick and it != "reiterable" and raise_at is not None and 0 < raise_at < len(items):
+                        continue
+                    recipe = {"kind": kind, key: [_item(x) for x in items], "iterable": it}
+                    if raise_at is not None:
+                        recipe["raise_at"], recipe["raise_runs"] = raise_at, 1
+                    yield {"response": recipe, "request": dict(get)}
+    # a producer that is suspended when the first client goes away; an idle event stream (pings)
+    yield {"response": {"kind": "stream", "chunks": [b"a", b"", b"bc"], "delays": [0.004, 0, 0.004]}, "request": dict(get)}
+    yield {"response": {"kind": "sse", "events": [{"data": "x"}], "delays": [0.025], "ping_interval": 0.01}, "request": dict(get)}
+    # files: the second request with the same and with another Range / method / zero-copy offer
+    file_requests = [{"method": "GET", "range": None}, {"method": "GET", "range": "bytes=1-3"}, {"method": "GET", "range": "bytes=0-0,2-3"},
+                     {"method": "GET", "range": "bytes=9999-"}, {"method": "HEAD", "range": None}, {"method": "GET", "range": None, "zerocopy": True}]
+    for size, chunk in ((5, 3), (0, 3)) if quick else ((5, 3), (0, 3), (1, 1), (12, 4096), (64, 7)):
+        for rq in file_requests:
+            for rq2 in [None] + [x for x in file_requests if x is not rq and (not quick or x["range"] in (None, "bytes=0-0,2-3"))]:
+                case = {"response": {"kind": "file", "name": "f.txt", "size": size, "chunk": chunk}, "request": dict(rq)}
+                if rq2 is not None:
+                    case["request2"] = dict(rq2)
+                yield case
+    # the object sits behind baize's middleware: every request gets a fresh NextResponse over the SAME inner response
+    for wrap in (["identity"], ["add", "identity"]):
+        for recipe in ({"kind": "plain", "content": "hello"}, {"kind": "stream", "chunks": [b"a", b"", b"bc"]}, {"kind": "sse", "events": [{"data": "x"}, {"data": "y"}]},
+                       {"kind": "file", "name": "f.txt", "size": 5, "chunk": 3}, {"kind": "stream", "chunks": [b"a", b"b"], "raise_at": 1}):
+            yield {"response": dict(recipe, wrap=wrap), "request": dict(get)}
+
+
+@st.composite
+def reuse_case(draw):
+    case = draw(response_case())
+    recipe = case["response"]
+    if recipe.get("iterable") == "reiterable" and "raise_at" in recipe:
+        recipe["raise_runs"] = 1  # the second request's producer does not fail
+    if draw(st.integers(0, 2)) == 0:
+        rq2 = dict(case["request"])
+        rq2["method"] = draw(st.sampled_from(["GET", "HEAD", "POST"]))
+        if recipe["kind"] == "file":
+            rq2["range"] = draw(st.sampled_from(gen.RANGE_HEADERS))
+            rq2.pop("if_range", None)
+        case["request2"] = rq2
+    return case
+
+
 BLOCK_SIZES = (4096, 8192, 16384, 65536, 262144)
-BIG_SIZES = sorted({k * b + d for b in BLOCK_SIZES for k in (1, 2, 3) for d in (-1, 0, 1)})
+BIG_SIZES =sorted({k * b + d for b in BLOCK_SIZES for k in (1, 2, 3) for d in (-1, 0, 1)})
 
 
 def size_cases(quick):
@@ -636,6 +868,8 @@ SUBS = {
     "redirects": oracle,
     "filefaults": oracle_filefault,
     "cookie_attrs": oracle,
+    "reuse": oracle_reuse,
+    "reuse_mix": oracle_reuse,
 }
 
 
@@ -929,5 +1163,9 @@ def run(rec, only=None):
     rec.exhaustive["cookie_attrs"] = True
     core.drive_cases(rec, "sizes", size_cases(quick), oracle_sizes)
     rec.exhaustive["sizes"] = not quick
+    core.drive_cases(rec, "reuse", reuse_cases(quick), oracle_reuse)
+    rec.exhaustive["reuse"] = not quick
+    core.drive_hypothesis(rec, "reuse_mix", reuse_case(), oracle_reuse, 150 if quick else 4000, seed_offset=5)
+    rec.exhaustive["reuse_mix"] = False
     core.drive_hypothesis(rec, "responses", response_case(), oracle, 1500 if quick else 30000)
     rec.exhaustive["responses"] = False
